@@ -34,6 +34,8 @@ def _inputs(case):
     if case.get('error_seed') is not None:
         error = np.abs(np.random.default_rng(case['error_seed']).normal(
             2.0, 1.0, size=data.shape))
+        for (i, j, v) in case.get('error_special', []):
+            error[i % ny, j % nx] = v
     return data, mask, error
 
 
@@ -162,7 +164,29 @@ def check_sums(case, ctx):
         try:
             _cmp(sums[k], o['sum'], o['tol_sum'], 'aperture_sum',
                  f'position {k} ({x},{y}) {shape} {method}/{sub}')
-            if error is not None:
+            bad_e = None if error is None else ~np.isfinite(error)
+            if error is not None and bad_e.any():
+                # non-finite error values never mask a pixel: they propagate
+                # into the error (and only there)
+                keep = ~mask if mask is not None else np.ones(W.shape, bool)
+                S_ = G.weight_image(shape, x, y, data.shape, method, sub)[1]
+                sure = bool(np.any(bad_e & keep & (W - S_ > 0)))
+                maybe = bool(np.any(bad_e & keep & (W + S_ > 0)))
+                ctx.event('nonfinite_error_in_footprint' if sure else
+                          'nonfinite_error_elsewhere')
+                if sure:
+                    require(not math.isfinite(float(errs[k])),
+                            'aperture_sum_err',
+                            f'position {k}: error {errs[k]!r} is finite although '
+                            'a pixel in the aperture has a non-finite error')
+                elif not maybe:
+                    e2 = np.where(bad_e, 0.0, error)
+                    o2 = oracle_position(shape, x, y, data, mask, e2, method, sub)
+                    if not (o2['err_lo'] <= float(errs[k]) <= o2['err_hi']):
+                        raise Violation('aperture_sum_err',
+                                        f'position {k}: got {errs[k]!r} expected '
+                                        f'{o2["err"]!r}')
+            elif error is not None:
                 if not (o['err_lo'] <= float(errs[k]) <= o['err_hi']):
                     raise Violation('aperture_sum_err',
                                     f'position {k} ({x},{y}): got {errs[k]!r} '
@@ -175,7 +199,15 @@ def check_sums(case, ctx):
             raise
         # table and get_values agree with do_photometry bit-for-bit
         require(bit_equal(np.float64(tbl['aperture_sum'][k]),
-                          np.float64(sums[k])), 'table_vs_do_photometry')
+                          np.float64(sums[k])), 'table_vs_do_photometry',
+                f'position {k}: aperture_photometry sum '
+                f'{float(tbl["aperture_sum"][k])!r} vs do_photometry {float(sums[k])!r}')
+        if error is not None:
+            require(bit_equal(np.float64(tbl['aperture_sum_err'][k]),
+                              np.float64(errs[k])), 'table_vs_do_photometry',
+                    f'position {k}: aperture_sum_err '
+                    f'{float(tbl["aperture_sum_err"][k])!r} vs do_photometry '
+                    f'{float(errs[k])!r}')
         gv = masks[k].get_values(data, mask=mask)
         with np.errstate(all='ignore'):
             require(close(float(gv.sum()) if gv.size else 0.0, float(sums[k]),
@@ -204,7 +236,11 @@ def sums_cases(draw):
             'shape': sh, 'method': method,
             'subpixels': draw(st.sampled_from([1, 2, 3, 5, 7, 10])),
             'positions': draw(positions_around(ny, nx, reach)),
-            'scalar': draw(st.booleans())}
+            'scalar': draw(st.booleans()),
+            'error_special': [list(t) for t in draw(st.lists(st.tuples(
+                st.integers(0, 39), st.integers(0, 39),
+                st.sampled_from([float('nan'), float('inf'), 0.0])),
+                max_size=2))]}
 
 
 # --------------------------------------------------------------------------
